@@ -20,7 +20,7 @@ def interpret(P, inp, files, tier='quick', wrap=False, mode='normal'):
 
 def run_xtool(src, inp, files, scratch, max_cycles, extra=(), timeout=60):
     sp = os.path.join(scratch, 'p.x')
-    with open(sp, 'w') as f:
+    with open(sp, 'w', encoding='latin-1') as f:
         f.write(src)
     ip = os.path.join(scratch, 'input')
     with open(ip, 'wb') as f:
